@@ -153,7 +153,11 @@ def stub_defined(root, S):
         for el in ns:
             if el.get('name'):
                 out['%s.%s' % (n, el.get('name'))] = el.get('introspectable') != '0'
+                STUB_ELEMENTS['%s.%s' % (n, el.get('name'))] = el
     return out
+
+
+STUB_ELEMENTS = {}
 
 
 def lint(root, S, known_external):
@@ -235,12 +239,21 @@ def lint(root, S, known_external):
                     for p in plist:
                         t = p.find(S.CORE + 'type')
                         tn = t.get('name') if t is not None else None
-                        d = defs.get(tn) if tn else None
+                        def find_def(nm, home):
+                            # a name as written inside namespace `home` (None: the scanned one)
+                            if nm is None:
+                                return None, home
+                            if '.' in nm:
+                                return STUB_ELEMENTS.get(nm), nm.split('.')[0]
+                            if home is None:
+                                return defs.get(nm), None
+                            return STUB_ELEMENTS.get('%s.%s' % (home, nm)), home
+                        d, home = find_def(tn, None)
                         hops = 0
-                        while d is not None and d.tag == S.CORE + 'alias' and hops < 20:       # a typedef (of a typedef ...) of a callback type
-                            at = d.find(S.CORE + 'type')
+                        while d is not None and d.tag == S.CORE + 'alias' and hops < 20:       # a typedef (of a typedef ...) of a callback type,
+                            at = d.find(S.CORE + 'type')                                       # through the included namespaces too
                             tn = at.get('name') if at is not None else None
-                            d = defs.get(tn) if tn else None
+                            d, home = find_def(tn, home)
                             hops += 1
                         is_cb = (d is not None and d.tag == S.CORE + 'callback') or tn in ('GLib.Func',)
                         if is_cb and p.get('scope') is None and p.get('skip') != '1':      # a skipped parameter is not exposed
@@ -412,7 +425,10 @@ def typed_member_world(rng, S, ET):
     alias_syms = [S.FS(S.CSYMBOL_TYPE_TYPEDEF, 'FooLogAlias', base_type=S.td('FooLogV'), line=at()),
                   S.FS(S.CSYMBOL_TYPE_TYPEDEF, 'FooFineAlias', base_type=S.td('FooFine'), line=at()),
                   S.FS(S.CSYMBOL_TYPE_TYPEDEF, 'FooRawAlias', base_type=S.td('NibRaw'), line=at()),
-                  S.FS(S.CSYMBOL_TYPE_TYPEDEF, 'FooStampAlias', base_type=S.td('NibStamp'), line=at())]
+                  S.FS(S.CSYMBOL_TYPE_TYPEDEF, 'FooStampAlias', base_type=S.td('NibStamp'), line=at()),
+                  # the dependency's typedef re-exported under the own prefix with the same short name: Foo.Func -> Nib.Func -> Nib.Notify
+                  S.FS(S.CSYMBOL_TYPE_TYPEDEF, 'FooFunc', base_type=S.td('NibFunc'), line=at()),
+                  S.FS(S.CSYMBOL_TYPE_TYPEDEF, 'FooHandler', base_type=S.td('NibFunc'), line=at())]
     ftypes = ['FooLogV', 'FooPrintf', 'FooBigCb', 'FooFine', 'FooUsesJmp', 'FooLogAlias', 'FooFineAlias', 'FooRawAlias', 'FooStampAlias',
               'NibJmp', 'NibOk', 'NibMode', 'NibTone', 'NibVaMarshal', 'NibNotify', 'NibRaw', 'NibStamp', 'gint']
     members = []
@@ -443,6 +459,11 @@ def typed_member_world(rng, S, ET):
         else:
             funcs.append(S.func(name, S.VOID, [S.param('o', S.ptr(ct))], line=at()))
             comments.append(('/**\n * %s:\n * @o: (out)%s: a value\n */' % (name, ' (transfer none)' if ptr else ''), '/src/foo.c', 1000 + 10 * i))
+    for i, t in enumerate(['FooFunc', 'FooHandler', 'NibFunc']):
+        # callbacks behind alias chains that cross into the included namespace, with and without a scope
+        funcs.append(S.func('foo_chain_%d' % i, S.VOID, [S.param('cb', S.td(t))], line=at()))
+        if rng.random() < 0.5:
+            comments.append(('/**\n * foo_chain_%d:\n * @cb: (scope call): a callback\n */' % i, '/src/foo.c', 2000 + 10 * i))
     groups = [cb_syms, alias_syms, rec, funcs]
     rng.shuffle(groups)          # the structure before or after the callback types it uses
     syms = [s_ for g in groups for s_ in g]
